@@ -85,7 +85,12 @@ func TestC20(t *testing.T) {
 	r.Done()
 }
 
-func c20Run(r *run.Runner, c c20Case) {
+func c20Run(r *run.Runner, c c20Case) { c20RunWith(r, c, -1, "") }
+
+// c20RunWith: faultAt >= 0 makes the faultAt-th store operation after the
+// entry went stale fail (or return damaged bytes); it returns the number of
+// store operations seen from that point on.
+func c20RunWith(r *run.Runner, c c20Case, faultAt int, faultName string) (nops int, kinds []string) {
 	opt, T := c20Timeout(c.Timeout)
 	var lat time.Duration
 	hang := false
@@ -135,6 +140,10 @@ func c20Run(r *run.Runner, c c20Case) {
 		if phase == 0 {
 			return Render(&stored, uc.Enter, uc.Serial)
 		}
+		if faultAt >= 0 && !uc.Background {
+			// the fault turned the request into a foreground miss: not this property
+			return Render(&stored, uc.Enter, uc.Serial)
+		}
 		rs := RespSpec{DelayS: lat.Seconds(), Hang: hang}
 		switch c.Outcome {
 		case "304":
@@ -163,11 +172,36 @@ func c20Run(r *run.Runner, c c20Case) {
 	first := w.Do(sim.ReqSpec{URL: "http://a.example/c20"})
 	if first.BodySerial() != "0.0" {
 		r.Inconclusive("store phase failed: " + first.Summary())
-		return
+		return 0, nil
 	}
 	phase = 1
 	time.Sleep(sec(L + 5))
 	sig := fmt.Sprintf("latency=%s,outcome=%s,timeout=%s,ctx=%s", c.Latency, c.Outcome, c.Timeout, c.Ctx)
+	opsBase := w.Store.NumOps()
+	if faultAt >= 0 {
+		sig += ",fault=" + faultName
+		w.Store.Plan = func(seq int, op, key string) *sim.Fault {
+			if seq != opsBase+faultAt {
+				return nil
+			}
+			for _, f := range c10Faults {
+				if f.Name == faultName && (f.Ops == "*" || f.Ops == op) {
+					var orig []byte
+					if op == "get" {
+						orig, _ = w.Store.Inner.Get(key)
+					}
+					return f.Make(orig)
+				}
+			}
+			return nil
+		}
+	}
+	defer func() {
+		for _, o := range w.Store.Ops(opsBase) {
+			kinds = append(kinds, o.Op)
+		}
+		nops = len(kinds)
+	}()
 	var exs []*sim.Exchange
 	for k := 0; k < c.Row; k++ {
 		spec := sim.ReqSpec{URL: "http://a.example/c20"}
@@ -222,8 +256,8 @@ func c20Run(r *run.Runner, c c20Case) {
 			continue
 		}
 		if ex.CacheStatus() != "STALE" || ex.BodySerial() != "0.0" {
-			if k > 0 {
-				continue
+			if k > 0 || faultAt >= 0 {
+				continue // (with a store fault in the foreground the request is a miss: not this property)
 			}
 			r.Violation("foreground-not-stale", sig, "expected the stale stored response marked STALE; "+ex.Summary(), obs)
 			continue
@@ -289,6 +323,62 @@ func c20Run(r *run.Runner, c c20Case) {
 	if r.WantSample() && judged {
 		r.Sample(map[string]any{"case": c, "history": obs})
 	}
+	if judged && faultAt >= 0 {
+		r.Count("stale_hits_judged_with_a_store_fault", 1)
+	}
+	return
+}
+
+// TestC20Faults: the same judgments while one store operation after the entry
+// went stale - foreground or background - fails or returns damaged bytes.
+// When the foreground still serves the stale response, everything the
+// statement says about the background request (exactly one, conditional
+// whenever validators are stored, released at the right instant, no goroutine
+// left) must hold whatever the store does.
+func TestC20Faults(t *testing.T) {
+	r := run.Start(t, "C20", "store-faults")
+	defer r.Finish()
+	idx := 0
+	for _, lat := range []string{"0", "T-1ms", "10T", "never"} {
+		for _, oc := range []string{"304", "200", "err", "500"} {
+			for _, v := range []string{"etag", "lm", "both", "none", "etag-weak"} {
+				for _, cx := range []string{"background", "cancelled-after"} {
+					c := c20Case{lat, oc, "unset", cx, v, 1}
+					if !r.Thorough() && (idx+len(lat)+len(oc)+len(v))%4 != 0 {
+						idx++
+						continue
+					}
+					idx++
+					var n int
+					var kinds []string
+					r.Bubble(func() { n, kinds = c20RunWith(r, c, 1<<30, "") })
+					for j := 0; j < n; j++ {
+						for fi, fname := range []string{"error-before", "error-after", "garbage", "truncated-header", "json-null", "empty"} {
+							var f *c10Fault
+							for k := range c10Faults {
+								if c10Faults[k].Name == fname {
+									f = &c10Faults[k]
+								}
+							}
+							if f.Ops != "*" && f.Ops != kinds[j] {
+								continue
+							}
+							ci := idx*1000 + j*10 + fi
+							if !r.Mine(ci) {
+								continue
+							}
+							r.Begin(ci, map[string]any{"case": c, "fault_at_store_op_after_stale": j, "op": kinds[j], "fault": fname})
+							if fail := r.Bubble(func() { c20RunWith(r, c, j, fname) }); fail != "" {
+								r.Violation("goroutine-left-or-hang", fmt.Sprintf("latency=%s,outcome=%s,ctx=%s,fault=%s", c.Latency, c.Outcome, c.Ctx, fname), "the bubble did not finish cleanly (goroutine left blocked, or hang): "+firstLine(fail), c)
+							}
+							r.Count("fault:"+fname, 1)
+						}
+					}
+				}
+			}
+		}
+	}
+	r.Done()
 }
 
 func firstLines(s string, n int) string {
